@@ -33,7 +33,11 @@ def run(tier, seed):
         cases = uniq(gd.printed + gp.printed)
     else:
         gd = tlc.run("Hostile", GEN % (len(H.FRAGS), len(H.CTX), len(H.TERM), "FALSE", "docs"), workers=NCPU, timeout=1500, heap="24g")
-        cases = gd.printed
+        # every combination is enumerated by TLC (363 000); all fragment pairs in the plain context plus a seeded sample of 45 000 of the rest are replayed
+        allc = gd.printed
+        plain = [c for c in allc if c["ctx"] == 1 and c["term"] == 1]
+        rest = [c for c in allc if not (c["ctx"] == 1 and c["term"] == 1)]
+        cases = plain + rnd.sample(rest, min(len(rest), 45000))
     chk.cov["states"] = gd.distinct
     chk.cov["generator"] = dict(fragments=len(H.FRAGS), contexts=len(H.CTX), terminators=len(H.TERM), doc_cases=len(cases), extension_sets=len(exts))
     problems = []
@@ -71,6 +75,16 @@ def run(tier, seed):
                 so += [line("opml2text", fam, "o%d" % j, "opml"), line("opml2text", fam, "o%d" % j, "itmz")]
             so += [line("conv", "s_conv", "o%d" % j, 0, docs.EXT["PARSE_OPML"], 0), line("conv", "d_data", "o%d" % j, 11, docs.EXT["PARSE_OPML"], 0), line("conv", "s_conv", "o%d" % j, 2, docs.EXT["PARSE_ITMZ"], 0)]
         segs.append(so)
+        # size boundaries (growth of the definition stacks, search tries, label tables)
+        sc = H.scale_docs()
+        for j0 in range(0, len(sc), 6):
+            ss = ["seg\tscale", "timeout\t60"]
+            for j, (nm, b) in enumerate(sc[j0:j0 + 6]):
+                ss.append(line("src", "z%d" % j, sx(b)))
+                for f in ("html", "latex", "fodt", "opml"):
+                    ss.append(line("conv", "s_conv", "z%d" % j, docs.FMT[f], docs.STD, 0))
+                ss.append(line("conv", "s_data", "z%d" % j, docs.FMT["epub"], docs.STD | docs.EXT["COMPLETE"], 0))
+            segs.append(ss)
         # transclusion of hostile sources (markers of every length around the 1000-byte cap, unterminated / nested markers)
         wd = scratch("c01tx")
         st = ["seg\ttx", "timeout\t20"]
@@ -109,7 +123,7 @@ def run(tier, seed):
     chk.cov["variants"] = {k: dict(segments=v[0], rejected=v[1]) for k, v in trace_by_variant.items()}
     chk.cov["explanation"] = ("Sanitizer-instrumented replay of TLC-enumerated hostile documents through every text-accepting entry point, in both allocation modes, judged by the SafetyTrace monitor. "
                               "This explores; it does not prove absence of undefined behaviour. Protocols whose breach is the memory error are model-checked under C18/C19/C15.")
-    chk.cov["rule"] = "documents = context x fragment x fragment x terminator (quick: every fragment pair in the plain context + 6000 random full combinations; thorough: all); each with 2 rotating formats of 13, an extension set from the pairwise covering, a rotating language, and one of four API groups (metadata, critic, engine/tree, import)"
+    chk.cov["rule"] = "documents = context x fragment x fragment x terminator (quick: every fragment pair in the plain context + 6000 random full combinations; thorough: every pair in the plain context + 45000 sampled from the complete enumeration); each with 2 rotating formats of 13, an extension set from the pairwise covering, a rotating language, and one of four API groups (metadata, critic, engine/tree, import); plus size-boundary documents (40..1100 definitions of every kind, long labels, 300-column table) x 5 formats"
     chk.sample(dict(doc=doc_bytes(cases[11]).decode("latin-1"))); chk.sample(dict(doc=doc_bytes(cases[-1]).decode("latin-1")[:200], ext=exts[5]))
     # confirm + triage: isolate the failing command of each crashing segment
     seen = {}
